@@ -147,8 +147,10 @@ fn so3_check(bounds: Option<([f64; 4], f64)>, k: usize, tol: f64, rep: &mut Repo
     let words = midpoints(k);
     let centre = bounds.map(|b| b.0).unwrap_or([0.0, 0.0, 0.0, 1.0]);
     let tmax = bounds.map(|b| b.1.min(PI)).unwrap_or(PI);
-    // accepting tail: 0.5 * centre
-    let tail: Vec<u64> = centre.iter().map(|x| word_for_unit((0.5 * x + 1.0) / 2.0)).collect();
+    // accepting tail: a point just inside the unit ball in the centre's direction, then a fixed
+    // pseudo-random word list (any sampler with a positive acceptance probability terminates)
+    let mut tail: Vec<u64> = centre.iter().map(|x| word_for_unit(((1.0 - 1e-8) * x + 1.0) / 2.0)).collect();
+    tail.extend((0..512u64).map(crate::rngseam::mix));
     let total = k.pow(4);
     let edges: Vec<f64> = (1..16).map(|i| i as f64 * PI / 16.0).collect();
     // parallel over the first index
@@ -166,7 +168,7 @@ fn so3_check(bounds: Option<([f64; 4], f64)>, k: usize, tol: f64, rep: &mut Repo
                         let mut script = vec![words[i0], words[i1], words[i2], words[i3]];
                         script.extend_from_slice(&tail);
                         let mut rng = WordRng::new(script);
-                        rng.cap = 64;
+                        rng.cap = 600;
                         let s = match guarded(|| sp.sample_uniform(&mut rng)) {
                             Ok(Ok(s)) => s,
                             _ => {
